@@ -217,12 +217,14 @@ pub fn equivalent(r: &mut Sm, spec: &Spec, v: &[f64]) -> Option<Vec<f64>> {
 pub fn space_settings(r: &mut Sm, thorough: bool) -> Vec<Spec> {
     let mut v = vec![];
     let unb = |n: usize| CK::R { n, bounds: None };
-    for n in [1usize, 2, 3, 6] {
+    // (dimensions beyond 8 / 16 / 32: block-wise or vectorised loops have their own tails)
+    for n in [1usize, 2, 3, 6, 7, 8, 9, 16, 17, 33] {
         v.push(Spec::plain(Wrap::R, unb(n), None));
     }
     v.push(Spec::plain(Wrap::So2, CK::So2 { bounds: None }, None));
     v.push(Spec::plain(Wrap::So3, CK::So3 { bounds: None }, None));
-    for w in [0.0, 1e-3, 1.0, 50.0] {
+    // (the sign of a weight never matters to sqrt(sum (w d)^2))
+    for w in [0.0, 1e-3, 1.0, 50.0, -0.5] {
         v.push(Spec {
             wrap: Wrap::Se2,
             comps: vec![
@@ -262,8 +264,8 @@ pub fn space_settings(r: &mut Sm, thorough: bool) -> Vec<Spec> {
         ],
     });
     // compound layouts
-    let kinds = [unb(1), unb(2), unb(3), CK::So2 { bounds: None }, CK::So3 { bounds: None }];
-    let weights = [0.0, 1e-3, 1.0, 50.0];
+    let kinds = [unb(1), unb(2), unb(3), CK::So2 { bounds: None }, CK::So3 { bounds: None }, unb(10)];
+    let weights = [0.0, 1e-3, 1.0, 50.0, -2.0];
     let n_layouts = if thorough { 60 } else { 14 };
     for i in 0..n_layouts {
         let nc = 1 + (i % 4);
